@@ -261,6 +261,7 @@ func aggregate(results []*JobResult) *Agg {
 		a.St.XUnknown += r.St.XUnknown
 		a.St.ModelChecks += r.St.ModelChecks
 		a.St.FanoutCapHits += r.St.FanoutCapHits
+		a.St.Fallbacks += r.St.Fallbacks
 		for i := range a.Queries {
 			a.Queries[i] += r.Queries[i]
 		}
@@ -350,7 +351,7 @@ func cmdRun(args []string) int {
 		cfg.XEvery = 1
 		cfg.ValidateCap = 1 << 30
 	} else {
-		cfg.TLimitMs = 10000
+		cfg.TLimitMs = 30000
 		cfg.XEvery = 10
 		cfg.ValidateCap = 40
 	}
@@ -553,6 +554,7 @@ func cmdRun(args []string) int {
 		"known_findings_matched":        nKnown,
 		"inconclusive":                  agg.Inconc,
 		"fanout_cap_hits":               agg.St.FanoutCapHits,
+		"queries_answered_by_second_solver_after_timeout": agg.St.Fallbacks,
 		"time_s":                        map[string]float64{"load_and_ssa": round2(loadS), "explore": round2(exploreS), "native_build_and_run": round2(nativeS)},
 		"intrinsics":                    meta.Intrinsics,
 		"technique":                     "bounded symbolic execution of go/ssa of /repo's working tree; every branch feasibility and assertion decided by SMT (QF_BV)",
